@@ -25,6 +25,12 @@ def h1(a, n=6):
     return str(int(hashlib.sha256(str(a).encode()).hexdigest(), 16))[:n]
 def h2(a, b, n=6):
     return str(int(hashlib.sha256((str(a) + "|" + str(b)).encode()).hexdigest(), 16))[:n]
+def encode(p):
+    s = str(p)[:-1]
+    return "".join(chr(ord("a") + int(c)) for c in s) or "a"
+def decode(e):
+    ds = [ord(c) - ord("a") for c in str(e)]
+    return "".join(map(str, ds)) + str(sum(ds) % 10)
 def misfit(p):
     if random.random() < p:
         return "x" + rnd(2)
@@ -42,9 +48,22 @@ TEMPLATES = {
               ["int(<body>) % 9 == 4", "len(str(<body>)) >= 2"]),
     "in-rep": ("<start> ::= <n> <item>{int(<n>)}\n<n> ::= '1'|'2'|'3'\n<item> ::= '[' <id> ':' <v> ']'\n<id> ::= <digit>{8} := rnd()\n<v> ::= <digit>+\n" + DIG,
                ["int(<v>) % 4 == 1", "int(<n>) >= 2", "len(str(<v>)) <= 3"]),
+    # two generator-defined symbols that are converters of each other, both also used on their own
+    "converter": ("<start> ::= <rec>+\n<rec> ::= <enc> '=' <plain> ':' <val> ';'\n<enc> ::= <letter>+ := encode(<plain>)\n<plain> ::= <digit>+ := decode(<enc>)\n"
+                  "<letter> ::= 'a'|'b'|'c'|'d'|'e'|'f'|'g'|'h'|'i'|'j'\n<val> ::= <digit>+\n" + DIG,
+                  ["int(<val>) % 7 == 3", "len(str(<val>)) >= 2", "int(<val>) > 50"]),
     "misfit": ("<start> ::= <id> ':' <body>\n<id> ::= <digit>{3} := misfit(0.3)\n<body> ::= <digit>+\n" + DIG,
                ["int(<body>) % 11 == 4", "len(str(<body>)) >= 2"]),
 }
+
+
+def _encode(p):
+    return "".join(chr(ord("a") + int(ch)) for ch in str(p)[:-1]) or "a"
+
+
+def _decode(e):
+    ds = [ord(ch) - ord("a") for ch in str(e)]
+    return "".join(map(str, ds)) + str(sum(ds) % 10)
 
 
 def cases(tier, seed):
@@ -117,7 +136,9 @@ def run_case(c):
     seen = set()
     nontrivial = False
 
-    def judge(t, where, nonin):
+    first_bad = [None]
+
+    def judge(t, where, nonin, where_op=None):
         nonlocal nontrivial
         if id(t) in seen:
             return
@@ -142,7 +163,27 @@ def run_case(c):
             except Exception:
                 text = None
             key = (tuple(sorted(str(s) for s in n.sources)), text)
-            if key not in evset.get(name, ()):
+            if c["t"] == "converter":
+                # these two generators are not injective (the check digit is dropped / recomputed), so the log cannot tell
+                # which call a text came from; decided functionally instead: the text was returned by some call, and it is
+                # what the generator gives for the argument recorded with the node
+                pure = {"<enc>": _encode, "<plain>": _decode}[name]
+                returned = any(k[1] == text for k in evset.get(name, ()))
+                stats["converter_texts_logged_as_returned" if returned else "converter_texts_consistent_but_not_logged"] += 1
+                args = [str(s_) for s_ in n.sources]
+                if len(args) != 1 or pure(args[0]) != text:
+                    # known mechanism: crossover takes its donor subtree from anywhere, including the ARGUMENT trees kept in
+                    # `sources` (produced by the symbol's plain rule to break the converter cycle), and mounts it at a
+                    # generator-defined position; the argument recorded afterwards is derived through the other converter.
+                    # Attributed only if nothing was wrong in any tree produced before the first crossover of this run.
+                    if first_bad[0] is None:
+                        first_bad[0] = where_op
+                    mech = "crossover-mounts-argument-subtree-at-generated-position" if first_bad[0] == "crossover" else None
+                    violations.append({"what": f"{where}: generator-defined {name} has text {text!r} but its recorded argument(s) {args} give "
+                                               f"{pure(args[0]) if len(args) == 1 else '(no single argument)'!r}"
+                                               + ("" if returned else "; the generator never returned this text"), "mech": mech, "tree": pretty(t)[:300], "spec": spec})
+                    return
+            elif key not in evset.get(name, ()):
                 same_text = [k for k in evset.get(name, ()) if k[1] == text]
                 why = ("the generator never returned this text" if not same_text else
                        f"the generator returned this text only for other argument values {sorted(same_text)[:2]} than the recorded sources {key[0]}")
@@ -156,14 +197,14 @@ def run_case(c):
                 violations.append({"what": f"{where}: a misfitting generator value {text!r} ended up in a produced tree", "mech": None})
 
     for op, t in operators.OUTPUTS:
-        judge(t, f"operator {op}", op != "initial")
+        judge(t, f"operator {op}", op != "initial", where_op=op)
         if len(violations) >= 3:
             break
     for t in sols:
-        judge(t, "emitted solution", True)
+        judge(t, "emitted solution", True, where_op="solution")
     if f.fandango is not None:
         for t in f.fandango.population:
-            judge(t, "final population member", True)
+            judge(t, "final population member", True, where_op="population")
     stats["evaluations"] = stats["generator_nodes_checked"]
     stats["solutions"] = len(sols)
     res = {"status": "violation" if violations else "ok", "violations": violations[:3], "stats": dict(stats),
